@@ -131,7 +131,9 @@ func (v *version) Clone() *version {
 	clone.nonce = make([]byte, len(v.nonce))
 	copy(clone.nonce, v.nonce)
 
-	// not copying metadata
+	// not copying metadata: the struct copy above shares the map with v, and setting
+	// a value on the clone would rewrite the metadata of the (committed) original
+	clone.metadata = nil
 
 	return &clone
 }
